@@ -94,6 +94,7 @@ pub fn worker_main(spec_path: &str) -> i32 {
         crate::seam::set_random_seed(crate::rng::derive(spec.seed, "getrandom", 0));
         let res = match spec.mode.as_str() {
             "layer_a" => crate::layer_a::run(&spec),
+            "dap" => crate::dap::run(&spec),
             other => WorkerResult { verdict: "harness_error".into(), detail: format!("unknown mode {other}"), ..Default::default() },
         };
         res.write(&out);
